@@ -381,6 +381,12 @@ func projectRecursive(at *AttributeExpr, vat *NamedAttributeExpr, view string, s
 	at = DupAtt(at)
 
 	if rt, ok := at.Type.(*ResultTypeExpr); ok {
+		// The copy is rendered with view whatever the attribute it was copied
+		// from says: it may be handed out again for another attribute.
+		if at.Meta == nil {
+			at.Meta = MetaExpr{}
+		}
+		at.Meta[ViewMetaKey] = []string{view}
 		seen[hashAttrAndView(at, view)] = at
 		pr, err := project(rt, view, seen)
 		if err != nil {
